@@ -87,6 +87,7 @@ func NewBlankState() *State {
 func (s *State) Reset() {
 	s.env = s.rootEnv
 	s.depth = 0
+	s.rootEnv.ReleaseAllRegisters() // top level loops interrupted by the panic didn't release theirs.
 }
 
 // RegisterTrie sets up the Trie to record all top level ids and functions.
